@@ -1461,6 +1461,211 @@ example (x y : El ℚ) :
 
 end
 
+/-! ### ROUND 4: n-d leaves (n-d sampling indices, Fortran-order flattening, MatrixOperator
+along an axis).  The new leaves are `opaque` leaves whose two actions are EXECUTABLE model
+functions (`flatFRun`, `flatFInvRun`, `matAxisRun`, `matAxisAdjM`; driver tokens `flatf`,
+`flatfinv`, `mataxis`, `sampnd`, `wsumnd`, compared with the real code on the stream
+`model/…-nd`), and the theorems below PROVE the contract `Leaf.WT` (= `Pair`) that
+`adj_sound` needs for an opaque leaf — so trees over them are covered unconditionally. -/
+
+section
+variable {K : Type} [Field K] [DecidableEq K]
+
+/-- `np.ravel_multi_index(mi, shape)` as modelled by `ravelC` lands inside the raveled array
+whenever every index is inside its axis (all ranks, all shapes). -/
+theorem C05.ravel_lt (sh mi : List Nat) (h : List.Forall₂ (· < ·) mi sh) :
+    ravelC sh mi < shProd sh := ravelC_lt sh mi h
+
+example : ravelC [2, 4] [1, 3] = 7 ∧ ravelC [2, 4] [1, 3] < shProd [2, 4] :=
+  ⟨rfl, C05.ravel_lt _ _ (by simp)⟩
+
+omit [DecidableEq K] in
+/-- SamplingOperator / WeightedSumSamplingOperator on an n-d space (any rank): the flat index
+the code computes with `np.ravel_multi_index` (model: `sampIdx shape pts`) satisfies the
+conditions of `sampling_adj` / `wsum_sampling_adj` as soon as every sampling index lies inside
+its axis — so those two theorems (arbitrary non-zero real weights, duplicates allowed) hold for
+the n-d operators.  What is new here is the index bound; the contracts are the 1-d theorems. -/
+theorem C05.sampling_nd_wt (cj : K →+* K) (I : K) (S R : Space K) (sh : List Nat)
+    (pts : List (List Nat)) (integrate : Bool) (cv : K)
+    (hS : S.m = 1) (hR : R.m = 1) (hSn : S.n 0 = shProd sh)
+    (hW0 : ∀ i, S.W 0 i ≠ 0) (hWr : realW cj S) (hRW : ∀ k, R.W 0 k = 1)
+    (hcv : cv ≠ 0) (hcvr : cj cv = cv) (hreal : R.real = S.real)
+    (hpts : ∀ k, k < R.n 0 → List.Forall₂ (· < ·) (pts.map fun a => a.getD k 0) sh) :
+    (Leaf.sampling S R (sampIdx sh pts) integrate cv).WT cj I ∧
+    (Leaf.wsum R S (sampIdx sh pts) integrate cv).WT cj I := by
+  have hidx : ∀ k, k < R.n 0 → sampIdx sh pts k < S.n 0 := fun k hk => by
+    rw [hSn]; exact ravelC_lt sh _ (hpts k hk)
+  exact ⟨⟨hS, hR, hW0, hWr, hRW, hcv, hcvr, hidx, hreal⟩,
+    ⟨hS, hR, hW0, hWr, hRW, hcv, hcvr, hidx, hreal⟩⟩
+
+/-- n-d SamplingOperator: `⟨Ax, y⟩ = ⟨x, A*y⟩` with `A* = (cv / W) · WeightedSumSampling`
+(corollary of `sampling_nd_wt` and `sampling_adj`). -/
+theorem C05.sampling_nd_adj (cj : K →+* K) (I : K) (S R : Space K) (sh : List Nat)
+    (pts : List (List Nat)) (integrate : Bool) (cv : K)
+    (hS : S.m = 1) (hR : R.m = 1) (hSn : S.n 0 = shProd sh)
+    (hW0 : ∀ i, S.W 0 i ≠ 0) (hWr : realW cj S) (hRW : ∀ k, R.W 0 k = 1)
+    (hcv : cv ≠ 0) (hcvr : cj cv = cv) (hreal : R.real = S.real)
+    (hpts : ∀ k, k < R.n 0 → List.Forall₂ (· < ·) (pts.map fun a => a.getD k 0) sh) :
+    ∀ t', (Leaf.sampling S R (sampIdx sh pts) integrate cv).adj cj I = some t' →
+      Pair cj False S R ((Leaf.sampling S R (sampIdx sh pts) integrate cv).run cj I)
+        (t'.run cj I) := fun t' h =>
+  C05.sampling_adj cj I S R _ integrate cv t'
+    (C05.sampling_nd_wt cj I S R sh pts integrate cv hS hR hSn hW0 hWr hRW hcv hcvr hreal hpts).1 h
+
+/-- Non-vacuity: the 2-d sampling of the harness (`uniform_discr([0,0],[1,2],(2,4))`, points
+(0,0),(1,3),(1,3),(0,2) — a duplicate) satisfies every hypothesis. -/
+example :
+    let S : Space ℚ := ⟨1, fun _ => 8, fun _ _ => 1 / 4, true⟩
+    let R : Space ℚ := ⟨1, fun _ => 4, fun _ _ => 1, true⟩
+    (Leaf.sampling S R (sampIdx [2, 4] [[0, 1, 1, 0], [0, 3, 3, 2]]) true (1 / 4)).WT
+      (RingHom.id ℚ) 0 ∧ sampIdx [2, 4] [[0, 1, 1, 0], [0, 3, 3, 2]] 1 = 7 := by
+  intro S R
+  refine ⟨(C05.sampling_nd_wt (RingHom.id ℚ) 0 S R [2, 4] [[0, 1, 1, 0], [0, 3, 3, 2]] true (1 / 4)
+    rfl rfl rfl (fun _ => by norm_num) (fun _ _ => rfl) (fun _ => rfl) (by norm_num) rfl rfl ?_).1,
+    rfl⟩
+  intro k hk
+  have hk' : k < 4 := hk
+  rcases k with _ | _ | _ | _ | k
+  · simp
+  · simp
+  · simp
+  · simp
+  · omega
+
+/-- FlatteningOperator(S, order='F') on an n-d space of ANY shape with ARBITRARY non-zero real
+weights: `(1 / W) · inverse` (the coded adjoint, `inverse = np.reshape(·, shape, order='F')`)
+satisfies `⟨Ax, y⟩ = ⟨x, A*y⟩`.  The Fortran-order permutation is the executable `cOfF`
+(mixed-radix digit reversal), proved bijective on `range (prod shape)` for every shape. -/
+theorem C05.flatten_F_adj (cj : K →+* K) (I : K) (S R : Space K) (sh : List Nat)
+    (hS : S.m = 1) (hR : R.m = 1) (hSn : S.n 0 = shProd sh) (hRn : R.n 0 = shProd sh)
+    (hW0 : ∀ i, S.W 0 i ≠ 0) (hWr : realW cj S) (hRW : ∀ k, R.W 0 k = 1)
+    (hreal : R.real = S.real) :
+    (Leaf.flattenF S R sh).WT cj I := by
+  show Pair cj (false = true) S R _ _
+  refine ⟨?_, ?_, ?_⟩
+  · intro x hx h j i
+    exact hx (by rw [← hreal]; exact h) 0 _
+  · intro y hy h j k
+    have := hy (by rw [hreal]; exact h) 0 (fOfC sh k)
+    simp [flatFInvRun, this, hWr _ _]
+  · intro φ _ x y _ _
+    congr 1
+    simp only [dot_eq, hS, hR, sum_range_one, hSn, hRn, hRW, one_mul, flatFRun, flatFInvRun]
+    conv_rhs => rw [← sum_cOfF sh]
+    refine sum_congr rfl fun i hi => ?_
+    rw [fOfC_cOfF sh i (mem_range.mp hi), map_mul, map_div₀, map_one, hWr 0 _]
+    have := hW0 (cOfF sh i)
+    field_simp
+
+/-- FlatteningOperator(S, order='F').inverse: the coded adjoint `op ∘ (W ·)` is the adjoint,
+for any shape and arbitrary real weights. -/
+theorem C05.flatten_F_inverse_adj (cj : K →+* K) (I : K) (R S : Space K) (sh : List Nat)
+    (hS : S.m = 1) (hR : R.m = 1) (hSn : S.n 0 = shProd sh) (hRn : R.n 0 = shProd sh)
+    (hWr : realW cj S) (hRW : ∀ k, R.W 0 k = 1)
+    (hreal : R.real = S.real) :
+    (Leaf.flattenFInv R S sh).WT cj I := by
+  show Pair cj (false = true) R S _ _
+  refine ⟨?_, ?_, ?_⟩
+  · intro y hy h j k
+    exact hy (by rw [hreal]; exact h) 0 _
+  · intro x hx h j i
+    have := hx (by rw [← hreal]; exact h) 0 (cOfF sh i)
+    simp [flatFRun, this, hWr _ _]
+  · intro φ _ y x _ _
+    congr 1
+    simp only [dot_eq, hS, hR, sum_range_one, hSn, hRn, hRW, one_mul, flatFRun, flatFInvRun]
+    conv_lhs => rw [← sum_cOfF sh]
+    refine sum_congr rfl fun i hi => ?_
+    rw [fOfC_cOfF sh i (mem_range.mp hi), map_mul, hWr 0 _]
+    ring
+
+/-- Non-vacuity and use: on `uniform_discr([0,0],[1,1.5],(2,3))` (cell volume 1/4) the F-order
+flattening leaf satisfies its contract, hence so does the tree `3 · Flatten_F` by `adj_sound`
+(no leaf hypothesis left); and the permutation is not the identity. -/
+example :
+    let S : Space ℚ := ⟨1, fun _ => 6, fun _ _ => 1 / 4, true⟩
+    let R : Space ℚ := ⟨1, fun _ => 6, fun _ _ => 1, true⟩
+    let t : Impl ℚ := .lscal (.leaf (Leaf.flattenF S R [2, 3])) 3
+    t.WT (RingHom.id ℚ) 0 ∧ (t.adj (RingHom.id ℚ) 0).isSome = true ∧ cOfF [2, 3] 1 = 3 := by
+  intro S R t
+  exact ⟨⟨C05.flatten_F_adj (RingHom.id ℚ) 0 S R [2, 3] rfl rfl rfl rfl (fun _ => by norm_num)
+    (fun _ _ => rfl) (fun _ => rfl) rfl, fun _ => rfl, fun _ => rfl⟩, rfl, rfl⟩
+
+example :
+    let S : Space ℚ := ⟨1, fun _ => 6, fun _ _ => 1 / 4, true⟩
+    let R : Space ℚ := ⟨1, fun _ => 6, fun _ _ => 1, true⟩
+    (Leaf.flattenFInv R S [2, 3]).WT (RingHom.id ℚ) 0 :=
+  C05.flatten_F_inverse_adj (RingHom.id ℚ) 0 _ _ [2, 3] rfl rfl rfl rfl (fun _ _ => rfl)
+    (fun _ => rfl) rfl
+
+/-- MatrixOperator(M, domain=d, range=r, axis=a) on n-d tensors of shape `(p, n, q)` →
+`(p, m, q)` (`p`, `q` = products of the axes before / after `a`; any rank, any sizes) with
+CONSTANT real weightings `wd ≠ 0`, `wr` (this includes cell volumes): the coded adjoint
+`MatrixOperator(Mᴴ · (wr / wd), domain=r, range=d, axis=a)` (factor omitted by the code when
+`wd = wr`) satisfies `⟨Ax, y⟩_r = ⟨x, A*y⟩_d`; real or complex. -/
+theorem C05.matrix_axis_adj (cj : K →+* K) (hcj : ∀ a, cj (cj a) = a) (I : K) (d r : Space K)
+    (p n m q : Nat) (wd wr : K) (M : Nat → Nat → K)
+    (hd : d.m = 1) (hr : r.m = 1) (hdn : d.n 0 = p * (n * q)) (hrn : r.n 0 = p * (m * q))
+    (hWd : ∀ i, d.W 0 i = wd) (hWr : ∀ o, r.W 0 o = wr) (hwd0 : wd ≠ 0)
+    (hwdr : cj wd = wd) (hwrr : cj wr = wr) (hdr : d.real = r.real)
+    (hM : d.real = true → ∀ i k, cj (M i k) = M i k) :
+    (Leaf.matrixAxis cj d r n m q (some (wd, wr)) M).WT cj I := by
+  show Pair cj (false = true) d r _ _
+  refine ⟨?_, ?_, ?_⟩
+  · intro x hx h j o
+    have hxr : ∀ j i, cj (x j i) = x j i := hx (hdr ▸ h)
+    simp only [matAxisRun, sumTo_eq, map_sum, map_mul, hM (hdr ▸ h), hxr]
+  · intro y hy h j o
+    have hyr : ∀ j i, cj (y j i) = y j i := hy (hdr ▸ h)
+    simp only [matAxisRun, matAxisAdjM, sumTo_eq, map_sum, map_mul, hyr]
+    refine sum_congr rfl fun k _ => ?_
+    by_cases e : wd = wr
+    · simp [e, hM h]
+    · simp [e, hM h, map_div₀, hwdr, hwrr]
+  · intro φ _ x y _ _
+    congr 1
+    simp only [dot_eq, hd, hr, sum_range_one, hdn, hrn, hWd, hWr]
+    refine matAxis_dot cj p n m q M _ wr wd ?_ x y
+    intro k i
+    simp only [matAxisAdjM]
+    by_cases e : wd = wr
+    · simp [e, hcj]
+    · simp only [e, if_false, map_mul, map_div₀, hcj, hwdr, hwrr]
+      field_simp
+
+/-- Non-vacuity: `MatrixOperator(M, domain=rn((2,3), weighting=1/2), range=rn((2,3),
+weighting=2), axis=0)` (p = 1, n = m = 2, q = 3). -/
+example :
+    let d : Space ℚ := ⟨1, fun _ => 6, fun _ _ => 1 / 2, true⟩
+    let r : Space ℚ := ⟨1, fun _ => 6, fun _ _ => 2, true⟩
+    (Leaf.matrixAxis (RingHom.id ℚ) d r 2 2 3 (some (1 / 2, 2)) fun i k => (i : ℚ) - 2 * k).WT
+      (RingHom.id ℚ) 0 :=
+  C05.matrix_axis_adj (RingHom.id ℚ) (fun _ => rfl) 0 _ _ 1 2 2 3 (1 / 2) 2 _ rfl rfl rfl rfl
+    (fun _ => rfl) (fun _ => rfl) (by norm_num) rfl rfl rfl (fun _ _ _ => rfl)
+
+end
+
+section
+open OdlModel.Adjoint
+
+/-- Open finding F7 on the model: on an n-d domain with an ARRAY weighting the code returns the
+bare conjugate transpose (`matAxisAdjM … none`), which is NOT the adjoint:
+`MatrixOperator([[0,1],[0,0]], domain=rn((2,1), weighting=[[1],[2]]), axis=0)` has
+`⟨A e₁, f₀⟩ = 1` but `⟨e₁, A* f₀⟩ = 2`.  So `matrix_axis_adj` cannot be extended to
+`cw = none` with non-constant weights. -/
+theorem C05.matrix_axis_array_fails :
+    ∃ (d : Space ℚ) (M : Nat → Nat → ℚ) (x y : El ℚ),
+      d.m = 1 ∧ d.n 0 = 2 ∧ (∀ i, 0 < d.W 0 i) ∧
+      dot (RingHom.id ℚ) d (matAxisRun 2 2 1 M x) y ≠
+        dot (RingHom.id ℚ) d x (matAxisRun 2 2 1 (matAxisAdjM (RingHom.id ℚ) none M) y) := by
+  refine ⟨⟨1, fun _ => 2, fun _ i => if i = 0 then 1 else 2, true⟩,
+    fun i k => if i = 0 ∧ k = 1 then 1 else 0, fun _ i => if i = 1 then 1 else 0,
+    fun _ i => if i = 0 then 1 else 0, rfl, rfl, ?_, ?_⟩
+  · intro i; by_cases h : i = 0 <;> simp [h]
+  · simp [dot, sumTo, matAxisRun, matAxisAdjM]
+
+end
+
 /-! ### non-vacuity over ℂ: a tree mixing real and complex spaces under a complex scalar -/
 
 noncomputable section
